@@ -647,11 +647,95 @@ theorem r56_rejects_partial (P : Prims) (prm : Params) (cps : List Nat) (b : Byt
   simp [authenticate56, hn, authOwner56, authUser56, ho, hu]
 
 theorem r6_rejects_saslprep_refused (P : Prims) (prm : Params) (cps : List Nat)
-    (hr : prm.r = 6) (hne : cps ≠ []) (hs : P.saslprep cps = none) :
+    (hr : prm.r = 6) (hne : cps ≠ []) (hs : saslprepModel P.sasl cps = none) :
     authenticate56 P prm cps = .error .passwordIncorrect := by
   cases cps with
   | nil => exact absurd rfl hne
   | cons c cs => simp [authenticate56, normalizePassword, hr, hs]
+
+/-! ## SASLprep (revision 6 password preparation) -/
+
+/-- RFC 4013 as written: map (C.1.2 -> SPACE, B.1 -> nothing), NFKC, then reject prohibited output
+    and unassigned code points, and apply RFC 3454 section 6: if the string contains any RandALCat
+    character it must contain no LCat character and must begin and end with a RandALCat character. -/
+def saslprepSpec (T : SaslTables) (data : List Nat) : Option (List Nat) :=
+  let norm := T.nfkc ((data.filter (fun c => ! T.b1 c)).map (fun c => if T.c12 c then 32 else c))
+  if norm.any T.prohibited then none
+  else if norm.any T.d1 then
+    if norm.any T.d2 then none
+    else match norm.head?, norm.getLast? with
+      | some a, some b => if T.d1 a && T.d1 b then some norm else none
+      | _, _ => none
+  else some norm
+
+/-- The tables `_saslprep.py` consults are exactly those of RFC 4013 section 2.3 (+ A.1 for stored
+    strings), and C.1.2 characters are mapped to U+0020 - regenerated from the source on every run. -/
+theorem sasl_tables_are_rfc4013 :
+    SASL_PROHIBITED_TABLES = ["c12", "c21_c22", "c3", "c4", "c5", "c6", "c7", "c8", "c9"] ∧
+    SASL_BODY_TABLES = ["c12", "b1", "d1", "a1", "d2"] ∧ SASL_SPACE = 32 := by decide
+
+theorem any_or (l : List Nat) (p q : Nat → Bool) :
+    l.any (fun c => p c || q c) = (l.any p || l.any q) := by
+  induction l with
+  | nil => rfl
+  | cons a t ih => simp only [List.any_cons, ih]; cases p a <;> cases q a <;> simp
+
+theorem any_of_head (l : List Nat) (p : Nat → Bool) (a : Nat) (h : l.head? = some a) (hp : p a = true) :
+    l.any p = true := by
+  cases l with
+  | nil => simp at h
+  | cons x t => simp at h; subst h; simp [hp]
+
+theorem any_of_last (l : List Nat) (p : Nat → Bool) (a : Nat) (h : l.getLast? = some a) (hp : p a = true) :
+    l.any p = true := by
+  have hm : a ∈ l := List.mem_of_getLast? h
+  exact List.any_eq_true.mpr ⟨a, hm, hp⟩
+
+/-- **The control flow of `_saslprep.saslprep` implements RFC 4013** for every table content: the
+    code's bidi logic ("first character RandALCat => last must be, and no LCat; otherwise no
+    RandALCat anywhere") is equivalent to RFC 3454 section 6.  What stays trusted is the content of
+    the `stringprep` tables and Unicode 3.2 NFKC. -/
+theorem saslprep_model_eq_spec (T : SaslTables) (data : List Nat) :
+    saslprepModel T data = saslprepSpec T data := by
+  unfold saslprepModel saslprepSpec
+  simp only [show SASL_SPACE = 32 from rfl]
+  generalize T.nfkc _ = norm
+  cases hh : norm.head? with
+  | none =>
+    have : norm = [] := by cases norm <;> simp_all
+    subst this; simp
+  | some first =>
+    cases hl : norm.getLast? with
+    | none =>
+      have : norm = [] := by cases norm <;> simp_all
+      subst this; simp at hh
+    | some last =>
+      simp only [any_or]
+      by_cases hp : norm.any T.prohibited = true
+      · simp [hp]
+      · have hp' : norm.any T.prohibited = false := by simpa using hp
+        simp only [hp', Bool.false_or, Bool.false_eq_true, if_false]
+        by_cases h1 : T.d1 first = true
+        · have hany : norm.any T.d1 = true := any_of_head norm T.d1 first hh h1
+          simp only [h1, hany, if_true]
+          by_cases h2 : T.d1 last = true
+          · simp [h2]
+          · have h2' : T.d1 last = false := by simpa using h2
+            simp [h2']
+        · have h1' : T.d1 first = false := by simpa using h1
+          simp only [h1', Bool.false_eq_true, if_false]
+          by_cases hany : norm.any T.d1 = true
+          · simp [hany]
+          · have hany' : norm.any T.d1 = false := by simpa using hany
+            simp [hany']
+
+/-- Non-vacuity: an Arabic letter followed by a Latin one is refused, two Arabic letters pass
+    (toy tables: 0x627/0x628 are RandALCat, 0x61 is LCat). -/
+example :
+    let T : SaslTables := { c12 := fun _ => false, b1 := fun c => c == 0xAD, prohibited := fun c => c == 7,
+                            d1 := fun c => c == 0x627 || c == 0x628, d2 := fun c => c == 0x61, nfkc := id }
+    saslprepModel T [0x627, 0x61] = none ∧ saslprepModel T [0x627, 0xAD, 0x628] = some [0x627, 0x628] ∧
+    saslprepModel T [0xAD] = some [] ∧ saslprepModel T [0x61, 7] = none := by decide
 
 /-! ## end to end: handler selection + authentication + round trip + permissions -/
 
@@ -879,7 +963,8 @@ def toyPrims : Prims where
   sha512 := fun b => (b ++ List.replicate 64 0).take 64
   aesDec := fun _ _ d => d
   aesEnc := fun _ _ d => d
-  saslprep := some
+  sasl := { c12 := fun _ => false, b1 := fun _ => false, prohibited := fun _ => false,
+            d1 := fun _ => false, d2 := fun _ => false, nfkc := id }
 
 theorem toyPrims_ok : PrimsOK toyPrims where
   md5_len := by intro x; simp [toyPrims]
